@@ -144,3 +144,32 @@ pub fn random_key(rng: &mut Rng, max_chars: usize) -> String {
     }
     s
 }
+
+/// A text of about `target` bytes: either chunks made of dictionary keys and noise, cycled, or a plain
+/// repetition of units that no input-text plugin edits (so that the original and the normalised length agree)
+pub fn long_text(rng: &mut Rng, keys: &[String], target: usize) -> String {
+    let mut s = String::with_capacity(target + 64);
+    if rng.chance(1, 2) {
+        let units: Vec<String> = (0..4)
+            .map(|_| {
+                let k = if !keys.is_empty() && rng.chance(1, 2) { rng.pick(keys).clone() } else { String::new() };
+                format!("{}{}{}", rng.s(HIRA), rng.s(ASCII_L), k)
+            })
+            .collect();
+        while s.len() < target {
+            let u: &String = rng.pick(&units[..]);
+            s.push_str(u);
+        }
+    } else {
+        let chunks: Vec<String> = (0..16).map(|_| text_from_keys(rng, keys, 6)).filter(|c| !c.is_empty()).collect();
+        if chunks.is_empty() {
+            return "あ".repeat(target / 3);
+        }
+        let mut i = 0;
+        while s.len() < target {
+            s.push_str(&chunks[i % chunks.len()]);
+            i += 1;
+        }
+    }
+    s
+}
